@@ -43,6 +43,8 @@ def run(ctx):
     ctx.rule("S12", "Gearbox thresholds cannot block both sides: sink.ready = level < Tr, source.valid = level >= Tv with "
                     "Tr >= Tv, from io_lcm >= 2*i_dw and io_lcm >= 2*o_dw (the two doubling statements); the level only "
                     "decreases on a source handshake (valid is not withdrawn)", min_sites=7)
+    ctx.rule("S14", "PacketFIFO progress: the payload store is as deep as promised and the parameter store one deeper than requested -- "
+                    "a payload store shallower than a packet dead-locks (last beat refused while nothing can be released)", min_sites=4)
     ctx.rule("S13", "FIFO wrapper: every source field (valid, payload, param, first, last) is a function of the FIFO output side only "
                     "-- no combinational path from the sink's lines (a stored token must not change while it waits)", min_sites=5)
     ctx.rule("PRIO", "no assignment is made dead by a later unconditional assignment to the same target in the same "
@@ -77,6 +79,10 @@ def run(ctx):
 
     # ---- Gearbox thresholds
     _gearbox(ctx)
+
+    # ---- S14 PacketFIFO store geometry (progress)
+    from ..rules_stream import packetfifo_geometry
+    packetfifo_geometry(ctx, "S14")
 
     # ---- S13 stored tokens are presented from the store
     fx = fx_of(ctx, STREAM, "_FIFOWrapper")
